@@ -214,20 +214,32 @@ theorem replay_point (e : Env) (prop : String) (B : List Nat) (R : St) (hB : pVa
   obtain ⟨_, h2⟩ := (pValid_append e _ _ R).mp hB
   exact ((pValid_cons e _ _ _).mp h2).1
 
-/-- the hypothesis `H1` of `absorb` for an accepted `play` -/
-theorem play_H1 (e : Env) (s : St) (b : Block) (R : St)
-    (hP : PoolOK e s.pool R) (hndP : s.pool.Nodup)
-    (hB : pValid e (blockOps b.prop b.txs) R) (hwB : ∀ i ∈ b.txs, WF e i) (hndB : b.txs.Nodup)
-    (hfreshU : ∀ i ∈ s.pool ++ b.txs, ∀ o, lookup R.U (i, o) = none)
-    (hfreshV : ∀ i ∈ s.pool ++ b.txs, ∀ k o, curVer R k ≠ some (i, o)) :
-    ∀ i ∈ b.txs, ∀ a ∈ s.pool.filter (fun i => !(playEvict e s b).contains i), a ≠ i →
-      ¬ [a, i].Sublist b.txs →
-      (i ∈ s.pool.filter (fun i => !(playEvict e s b).contains i) →
-        [a, i].Sublist (s.pool.filter (fun i => !(playEvict e s b).contains i))) →
+/-- the version of a key on the replay of a prefix of the block: the base version, or written by the prefix -/
+theorem replay_curVer (e : Env) (prop : String) (pre : List Nat) (R : St) (hid : ∀ j ∈ pre, (e.tx j).id = j)
+    (key : String) :
+    curVer (prun e (blockOps prop pre) R) key = curVer R key ∨
+      ∃ w o, w ∈ pre ∧ curVer (prun e (blockOps prop pre) R) key = some (w, o) := by
+  rcases prun_curVer e (blockOps prop pre) R key (fun op hop => hid _ (opId_blockOps _ _ op hop)) with h | ⟨w, o, hw, h⟩
+  · exact Or.inl h
+  · exact Or.inr ⟨w, o, app_mem_blockOps _ _ w hw, h⟩
+
+/-- **the hypothesis `H1` of `absorb`**, for a pool `P` valid on `R`, the kept part `K` of it (a sublist) and a block `B`
+that can be replayed on `R`, all ids fresh in `R`. Two things are left to the caller, because they depend on how the
+node chose `K` and `B`: a kept transaction outside the block has no read that the block makes stale (`hstale`), and a
+kept transaction spends no output of a pending transaction that is not kept (`hev`). -/
+theorem absorb_H1 (e : Env) (prop : String) (P K B : List Nat) (R : St)
+    (hP : PoolOK e P R) (hndP : P.Nodup) (hKP : K.Sublist P)
+    (hB : pValid e (blockOps prop B) R) (hwB : ∀ i ∈ B, WF e i) (hndB : B.Nodup)
+    (hfreshU : ∀ i ∈ P ++ B, ∀ o, lookup R.U (i, o) = none)
+    (hfreshV : ∀ i ∈ P ++ B, ∀ k o, curVer R k ≠ some (i, o))
+    (hstale : ∀ pre i post, B = pre ++ i :: post → ∀ a ∈ K, a ∉ B → (i ∈ K → [a, i].Sublist K) →
+      ∀ pk ∈ (e.tx a).kin, (∀ ko' ∈ (e.tx a).kout, ko'.key ≠ pk.key) → (∃ ko ∈ (e.tx i).kout, ko.key = pk.key) →
+      curVer (prun e (blockOps prop pre) R) pk.key = pk.ver → False)
+    (hev : ∀ i ∈ P, i ∉ K → ∀ a ∈ K, a ≠ i → ∀ r ∈ (e.tx a).ins, r.tx ≠ i) :
+    ∀ i ∈ B, ∀ a ∈ K, a ≠ i → ¬ [a, i].Sublist B → (i ∈ K → [a, i].Sublist K) →
       depB e i a = false ∧ ∀ r ∈ (e.tx a).ins, r.tx ≠ i := by
   intro i hiB a haK hai hnb hord
-  have haP : a ∈ s.pool := (List.mem_filter.mp haK).1
-  have hak : (playEvict e s b).contains a = false := by simpa using (List.mem_filter.mp haK).2
+  have haP : a ∈ P := hKP.subset haK
   have hwf := hP.wf
   obtain ⟨pre, post, hsplit⟩ := List.append_of_mem hiB
   have hapre : a ∉ pre := by
@@ -235,18 +247,13 @@ theorem play_H1 (e : Env) (s : St) (b : Block) (R : St)
     apply hnb
     rw [hsplit]
     exact List.Sublist.append (List.singleton_sublist.mpr hm) (List.singleton_sublist.mpr List.mem_cons_self)
-  have hpreB : ∀ j ∈ pre, j ∈ b.txs := fun j hj => by rw [hsplit]; exact List.mem_append_left _ hj
-  have hidpre : ∀ op ∈ blockOps b.prop pre, (e.tx (opId op)).id = opId op :=
+  have hpreB : ∀ j ∈ pre, j ∈ B := fun j hj => by rw [hsplit]; exact List.mem_append_left _ hj
+  have hidpre : ∀ op ∈ blockOps prop pre, (e.tx (opId op)).id = opId op :=
     fun op hop => (hwB _ (hpreB _ (opId_blockOps _ _ op hop))).id
-  obtain ⟨lhi, hadmi⟩ := replay_point e b.prop b.txs R hB pre post i hsplit
+  obtain ⟨lhi, hadmi⟩ := replay_point e prop B R hB pre post i hsplit
   obtain ⟨hcuri, _, hreadi, _⟩ := XV.C03.admit_sound _ lhi _ hadmi
   -- the version of a key at the point of `i`: the base version, or written by a transaction of `pre`
-  have hV0 : ∀ key, curVer (prun e (blockOps b.prop pre) R) key = curVer R key ∨
-      ∃ w o, w ∈ pre ∧ curVer (prun e (blockOps b.prop pre) R) key = some (w, o) := by
-    intro key
-    rcases prun_curVer e (blockOps b.prop pre) R key hidpre with h | ⟨w, o, hw, h⟩
-    · exact Or.inl h
-    · exact Or.inr ⟨w, o, app_mem_blockOps _ _ w hw, h⟩
+  have hV0 := replay_curVer e prop pre R (fun j hj => (hwB j (hpreB j hj)).id)
   constructor
   · -- `i` does not depend on `a`
     cases hd : depB e i a with
@@ -284,10 +291,10 @@ theorem play_H1 (e : Env) (s : St) (b : Block) (R : St)
           intro ko' hko' he
           have := hnw ko' hko'
           simp [he] at this
-        have hcv : curVer (prun e (blockOps b.prop pre) R) pk.key = pk.ver := by
+        have hcv : curVer (prun e (blockOps prop pre) R) pk.key = pk.ver := by
           rw [← hkk, hreadi ck hck, hvv]
         have hwi : ∃ ko ∈ (e.tx i).kout, ko.key = pk.key := ⟨ko, hko, by rw [hkok, hkk]⟩
-        by_cases haB : a ∈ b.txs
+        by_cases haB : a ∈ B
         · -- `a` is a later member of the block: its read is stale on the replay
           have hapost : a ∈ post := by
             rw [hsplit] at haB
@@ -297,20 +304,20 @@ theorem play_H1 (e : Env) (s : St) (b : Block) (R : St)
               · exact absurd h hai
               · exact h
           obtain ⟨q, t, hpost⟩ := List.append_of_mem hapost
-          have hsplit2 : b.txs = (pre ++ i :: q) ++ a :: t := by rw [hsplit, hpost]; simp
-          obtain ⟨lha, hadma⟩ := replay_point e b.prop b.txs R hB _ t a hsplit2
+          have hsplit2 : B = (pre ++ i :: q) ++ a :: t := by rw [hsplit, hpost]; simp
+          obtain ⟨lha, hadma⟩ := replay_point e prop B R hB _ t a hsplit2
           obtain ⟨_, _, hreada, _⟩ := XV.C03.admit_sound _ lha _ hadma
           have hcva := hreada pk hpk
           rw [blockOps_append, blockOps_cons, prun_append, prun_cons, prun_cons] at hcva
-          obtain ⟨o1, ho1⟩ := applyTx_curVer_written (prun e (blockOps b.prop pre) R) (e.tx i) pk.key hwi
-          have hidq : ∀ op ∈ blockOps b.prop q, (e.tx (opId op)).id = opId op := by
+          obtain ⟨o1, ho1⟩ := applyTx_curVer_written (prun e (blockOps prop pre) R) (e.tx i) pk.key hwi
+          have hidq : ∀ op ∈ blockOps prop q, (e.tx (opId op)).id = opId op := by
             intro op hop
             apply (hwB _ _).id
             rw [hsplit2]
             have := opId_blockOps _ _ op hop
             simp [this]
           have hafter : ∃ w o, (w = i ∨ w ∈ q) ∧ pk.ver = some (w, o) := by
-            rcases prun_curVer e (blockOps b.prop q) _ pk.key hidq with h | ⟨w, o, hw, h⟩
+            rcases prun_curVer e (blockOps prop q) _ pk.key hidq with h | ⟨w, o, hw, h⟩
             · rw [h] at hcva
               simp only [pstep] at hcva
               rw [payFee_curVer, ho1, (hwB i hiB).id] at hcva
@@ -318,7 +325,7 @@ theorem play_H1 (e : Env) (s : St) (b : Block) (R : St)
             · rw [h] at hcva
               exact ⟨w, o, Or.inr (app_mem_blockOps _ _ w hw), hcva.symm⟩
           obtain ⟨w, o, hw, hpv⟩ := hafter
-          have hwB' : w ∈ b.txs := by
+          have hwB' : w ∈ B := by
             rw [hsplit2]
             rcases hw with rfl | h
             · simp
@@ -336,53 +343,8 @@ theorem play_H1 (e : Env) (s : St) (b : Block) (R : St)
               · simp
               · simp [h])
             exact hd hw1
-        · -- `a` stays pending: it would conflict with the block
-          have hcf := playEvict_seed e s b a haP haB hak
-          obtain ⟨rv, hrv⟩ := blockVerOf_of_writer e b.txs pk.key i hiB hwi
-          rcases conflicts_false_kin e s.pool b.txs a hcf pk hpk rv hrv with hpv | ⟨v, hpv, hvP, hvB⟩
-          · obtain ⟨prew, postw, hw1, hw2⟩ := blockVerOf_some e b.txs pk.key rv hrv
-            have hrvB : rv.1 ∈ b.txs := by rw [hw1]; simp
-            rcases hV0 pk.key with h | ⟨w', o', hw', h⟩
-            · rw [h, hpv] at hcv
-              exact hfreshV rv.1 (List.mem_append_right _ hrvB) pk.key rv.2 hcv
-            · rw [h, hpv] at hcv
-              injection hcv with hcv
-              have hw'rv : w' = rv.1 := by rw [← hcv]
-              -- rv.1 stands before `i` (it is in `pre`), and `i` does not stand after rv.1
-              have h1 : [rv.1, i].Sublist b.txs := by
-                rw [hsplit, ← hw'rv]
-                exact List.Sublist.append (List.singleton_sublist.mpr hw')
-                  (List.singleton_sublist.mpr List.mem_cons_self)
-              have hipost : i ∉ postw := by
-                intro hm
-                obtain ⟨ko', hko', he'⟩ := hwi
-                exact hw2 i hm ko' hko' he'
-              have hirv : i ≠ rv.1 := by
-                intro h2
-                rw [← h2] at hw'rv
-                rw [hsplit] at hndB
-                exact (List.nodup_append.mp hndB).2.2 w' hw' i (by simp) hw'rv
-              have hipre : i ∈ prew := by
-                have hi2 := hiB
-                rw [hw1] at hi2
-                rcases List.mem_append.mp hi2 with h | h
-                · exact h
-                · rcases List.mem_cons.mp h with h | h
-                  · exact absurd h hirv
-                  · exact absurd h hipost
-              have h2 : [i, rv.1].Sublist b.txs := by
-                rw [hw1]
-                exact List.Sublist.append (List.singleton_sublist.mpr hipre)
-                  (List.singleton_sublist.mpr List.mem_cons_self)
-              exact nodup_pair_order b.txs rv.1 i hndB h1 h2
-          · rcases hV0 pk.key with h | ⟨w', o', hw', h⟩
-            · rw [h, hpv] at hcv
-              exact hfreshV v.1 (List.mem_append_left _ hvP) pk.key v.2 hcv
-            · rw [h, hpv] at hcv
-              injection hcv with hcv
-              apply hvB
-              rw [← hcv]
-              exact hpreB w' hw'
+        · -- `a` stays pending
+          exact hstale pre i post hsplit a haK haB hord pk hpk hnw' hwi hcv
   · -- `a` does not spend an output of `i`
     intro r hr hri
     obtain ⟨p, q, hPs⟩ := List.append_of_mem haP
@@ -399,24 +361,15 @@ theorem play_H1 (e : Env) (s : St) (b : Block) (R : St)
       obtain ⟨j, hj, rfl⟩ := List.mem_map.mp hop
       exact (hwf j (by rw [hPs]; simp [hj])).id
     by_cases hip : i ∈ p
-    · have hiP : i ∈ s.pool := by rw [hPs]; simp [hip]
-      cases hie : (playEvict e s b).contains i with
-      | true =>
-        have hdep : depB e a i = true := by
-          unfold depB
-          simp only [Bool.or_eq_true, List.any_eq_true, beq_iff_eq]
-          exact Or.inl (Or.inl ⟨r, hr, hri⟩)
-        have := playEvict_closed e s b i hiP hie a haP hai hdep
-        rw [hak] at this; cases this
-      | false =>
-        have hiK : i ∈ s.pool.filter (fun i => !(playEvict e s b).contains i) :=
-          List.mem_filter.mpr ⟨hiP, by rw [hie]; rfl⟩
-        have h1 : [a, i].Sublist s.pool := (hord hiK).trans List.filter_sublist
-        have h2 : [i, a].Sublist s.pool := by
+    · have hiP : i ∈ P := by rw [hPs]; simp [hip]
+      by_cases hiK : i ∈ K
+      · have h1 : [a, i].Sublist P := (hord hiK).trans hKP
+        have h2 : [i, a].Sublist P := by
           rw [hPs]
           exact List.Sublist.append (List.singleton_sublist.mpr hip)
             (List.singleton_sublist.mpr List.mem_cons_self)
-        exact nodup_pair_order s.pool a i hndP h1 h2
+        exact nodup_pair_order P a i hndP h1 h2
+      · exact hev i hiP hiK a haK hai r hr hri
     · have := prun_row_other e _ R i r.off u hidp
         (fun op hop h => by
           obtain ⟨j, hj, rfl⟩ := List.mem_map.mp hop
@@ -424,6 +377,87 @@ theorem play_H1 (e : Env) (s : St) (b : Block) (R : St)
           exact hip (h ▸ hj)) hu
       rw [hfreshU i (List.mem_append_right _ hiB) r.off] at this
       cases this
+
+/-- the hypothesis `H1` of `absorb` for an accepted `play`: staleness is excluded by `conflicts`, spending an evicted
+transaction's output by the closure -/
+theorem play_H1 (e : Env) (s : St) (b : Block) (R : St)
+    (hP : PoolOK e s.pool R) (hndP : s.pool.Nodup)
+    (hB : pValid e (blockOps b.prop b.txs) R) (hwB : ∀ i ∈ b.txs, WF e i) (hndB : b.txs.Nodup)
+    (hfreshU : ∀ i ∈ s.pool ++ b.txs, ∀ o, lookup R.U (i, o) = none)
+    (hfreshV : ∀ i ∈ s.pool ++ b.txs, ∀ k o, curVer R k ≠ some (i, o)) :
+    ∀ i ∈ b.txs, ∀ a ∈ s.pool.filter (fun i => !(playEvict e s b).contains i), a ≠ i →
+      ¬ [a, i].Sublist b.txs →
+      (i ∈ s.pool.filter (fun i => !(playEvict e s b).contains i) →
+        [a, i].Sublist (s.pool.filter (fun i => !(playEvict e s b).contains i))) →
+      depB e i a = false ∧ ∀ r ∈ (e.tx a).ins, r.tx ≠ i := by
+  apply absorb_H1 e b.prop s.pool _ b.txs R hP hndP List.filter_sublist hB hwB hndB hfreshU hfreshV
+  · -- a surviving transaction outside the block would conflict with the block
+    intro pre i post hsplit a haK haB _ pk hpk _ hwi hcv
+    have haP : a ∈ s.pool := (List.mem_filter.mp haK).1
+    have hak : (playEvict e s b).contains a = false := by simpa using (List.mem_filter.mp haK).2
+    have hiB : i ∈ b.txs := by rw [hsplit]; simp
+    have hpreB : ∀ j ∈ pre, j ∈ b.txs := fun j hj => by rw [hsplit]; exact List.mem_append_left _ hj
+    have hV0 := replay_curVer e b.prop pre R (fun j hj => (hwB j (hpreB j hj)).id)
+    have hcf := playEvict_seed e s b a haP haB hak
+    obtain ⟨rv, hrv⟩ := blockVerOf_of_writer e b.txs pk.key i hiB hwi
+    rcases conflicts_false_kin e s.pool b.txs a hcf pk hpk rv hrv with hpv | ⟨v, hpv, hvP, hvB⟩
+    · obtain ⟨prew, postw, hw1, hw2⟩ := blockVerOf_some e b.txs pk.key rv hrv
+      have hrvB : rv.1 ∈ b.txs := by rw [hw1]; simp
+      rcases hV0 pk.key with h | ⟨w', o', hw', h⟩
+      · rw [h, hpv] at hcv
+        exact hfreshV rv.1 (List.mem_append_right _ hrvB) pk.key rv.2 hcv
+      · rw [h, hpv] at hcv
+        injection hcv with hcv
+        have hw'rv : w' = rv.1 := by rw [← hcv]
+        -- rv.1 stands before `i` (it is in `pre`), and `i` does not stand after rv.1
+        have h1 : [rv.1, i].Sublist b.txs := by
+          rw [hsplit, ← hw'rv]
+          exact List.Sublist.append (List.singleton_sublist.mpr hw')
+            (List.singleton_sublist.mpr List.mem_cons_self)
+        have hipost : i ∉ postw := by
+          intro hm
+          obtain ⟨ko', hko', he'⟩ := hwi
+          exact hw2 i hm ko' hko' he'
+        have hirv : i ≠ rv.1 := by
+          intro h2
+          rw [← h2] at hw'rv
+          rw [hsplit] at hndB
+          exact (List.nodup_append.mp hndB).2.2 w' hw' i (by simp) hw'rv
+        have hipre : i ∈ prew := by
+          have hi2 := hiB
+          rw [hw1] at hi2
+          rcases List.mem_append.mp hi2 with h | h
+          · exact h
+          · rcases List.mem_cons.mp h with h | h
+            · exact absurd h hirv
+            · exact absurd h hipost
+        have h2 : [i, rv.1].Sublist b.txs := by
+          rw [hw1]
+          exact List.Sublist.append (List.singleton_sublist.mpr hipre)
+            (List.singleton_sublist.mpr List.mem_cons_self)
+        exact nodup_pair_order b.txs rv.1 i hndB h1 h2
+    · rcases hV0 pk.key with h | ⟨w', o', hw', h⟩
+      · rw [h, hpv] at hcv
+        exact hfreshV v.1 (List.mem_append_left _ hvP) pk.key v.2 hcv
+      · rw [h, hpv] at hcv
+        injection hcv with hcv
+        apply hvB
+        rw [← hcv]
+        exact hpreB w' hw'
+  · -- a surviving transaction that spent an output of an evicted one would have been evicted with it
+    intro i hiP hiK a haK hai r hr hri
+    have haP : a ∈ s.pool := (List.mem_filter.mp haK).1
+    have hak : (playEvict e s b).contains a = false := by simpa using (List.mem_filter.mp haK).2
+    have hie : (playEvict e s b).contains i = true := by
+      cases h : (playEvict e s b).contains i with
+      | true => rfl
+      | false => exact absurd (List.mem_filter.mpr ⟨hiP, by rw [h]; rfl⟩) hiK
+    have hdep : depB e a i = true := by
+      unfold depB
+      simp only [Bool.or_eq_true, List.any_eq_true, beq_iff_eq]
+      exact Or.inl (Or.inl ⟨r, hr, hri⟩)
+    have := playEvict_closed e s b i hiP hie a haP hai hdep
+    rw [hak] at this; cases this
 
 /-- the hypothesis `H2` of `absorb`: a pending transaction spends no fee row of a transaction of the block -/
 theorem play_H2 (e : Env) (P B : List Nat) (R : St) (hP : PoolOK e P R) (hwB : ∀ i ∈ B, WF e i)
@@ -520,6 +554,109 @@ theorem play_absorb_form (e : Env) (s : St) (lh : Int) (b : Block) (R : St)
       obtain ⟨h1, h2⟩ := List.mem_filter.mp hi
       exact ⟨(List.mem_filter.mp h1).1, by simpa using h2⟩
     apply poolOK_of_valid e _ _ v2 (List.Nodup.sublist List.filter_sublist hndK)
+      (fun i hi => hP.wf i (hmemP' i hi).1)
+    · intro i hi o
+      rw [← prun_blockOps]
+      apply prun_row_absent e _ R i o
+      · intro op hop
+        exact (hwB _ (opId_blockOps _ _ op hop)).id
+      · intro op hop h
+        exact (hmemP' i hi).2 (h ▸ opId_blockOps _ _ op hop)
+      · exact hfreshU i (List.mem_append_left _ (hmemP' i hi).1) o
+    · rw [← prun_blockOps]
+      exact prun_FrozenInv e _ R (fun op hop => hwB _ (opId_blockOps _ _ op hop)) hfz
+    · exact fun i hi => hsf i (hmemP' i hi).1
+
+-- ------------------------------------------------------------------ the miner's own block
+
+/-- shape of a successful `playForMiner` -/
+theorem playForMiner_ok_raw (e : Env) (s : St) (lh : Int) (b : Block) (h : (playForMiner e s lh b).2 = .ok) :
+    b.pre = some s.pointer ∧ ∃ s2, playForMiner.go e lh b b.txs s = some s2 ∧
+      (playForMiner e s lh b).1 =
+        { s2 with pointer := b.id, irrev := nextIrrev e.window s.irrev b.height,
+                  pool := s.pool.filter (fun i => !b.txs.contains i) } := by
+  unfold playForMiner at h ⊢
+  by_cases h1 : b.pre ≠ some s.pointer
+  · rw [if_pos h1] at h; cases h
+  · rw [if_neg h1] at h ⊢
+    refine ⟨by simpa using h1, ?_⟩
+    cases hgo : playForMiner.go e lh b b.txs s with
+    | none => rw [hgo] at h; cases h
+    | some s2 => exact ⟨s2, rfl, rfl⟩
+
+/-- **`playForMiner` against the pool.** The miner's block: its coinbase transactions are new and write no key, its other
+transactions are pending, and every pending transaction left out stands in the pool after every pending member (the
+members are a prefix of the pool). If the state refines "`R`, then the pool", the block can be replayed on `R` and all
+ids are fresh in `R`, the state after `playForMiner` refines "the block replayed on `R`, then the remaining pool", and
+the remaining pool is valid there. -/
+theorem miner_absorb_form (e : Env) (s : St) (lh : Int) (b : Block) (R : St)
+    (hok : (playForMiner e s lh b).2 = .ok)
+    (hs : TRefines s (applyPool e s.pool R))
+    (hP : PoolOK e s.pool R) (hndP : s.pool.Nodup)
+    (hB : pValid e (blockOps b.prop b.txs) R) (hwB : ∀ i ∈ b.txs, WF e i) (hndB : b.txs.Nodup)
+    (hfreshU : ∀ i ∈ s.pool ++ b.txs, ∀ o, lookup R.U (i, o) = none)
+    (hfreshV : ∀ i ∈ s.pool ++ b.txs, ∀ k o, curVer R k ≠ some (i, o))
+    (hfz : FrozenInv e R) (hsf : ∀ i ∈ s.pool, StaticFrozen e i)
+    (hsub : ∀ i ∈ b.txs, (e.tx i).coinbase = false → i ∈ s.pool)
+    (hcb : ∀ i ∈ b.txs, (e.tx i).coinbase = true → i ∉ s.pool ∧ (e.tx i).kout = [])
+    (hprefix : ∀ a ∈ s.pool, a ∉ b.txs → ∀ i ∈ b.txs, i ∈ s.pool → [i, a].Sublist s.pool) :
+    (playForMiner e s lh b).1.pool = s.pool.filter (fun i => decide (i ∉ b.txs)) ∧
+    TRefines (playForMiner e s lh b).1
+      (applyPool e (playForMiner e s lh b).1.pool (replayTxs e b.prop b.txs R)) ∧
+    PoolOK e (playForMiner e s lh b).1.pool (replayTxs e b.prop b.txs R) := by
+  obtain ⟨_, s2, hgo, hshape⟩ := playForMiner_ok_raw e s lh b hok
+  have hrun := playForMiner_go_run e lh b b.txs s s2 hgo
+  obtain ⟨r1, r2⟩ := blockRun_refines e lh b.prop _ b.txs s s2 _ hrun hs
+  have hskip : skipOps b.prop (fun i => !(e.tx i).coinbase) b.txs =
+      skipOps b.prop (fun i => decide (i ∈ s.pool)) b.txs := by
+    apply skipOps_congr
+    intro i hi
+    cases hc : (e.tx i).coinbase with
+    | false => simp [hsub i hi hc]
+    | true => simp [(hcb i hi hc).1]
+  rw [hskip] at r1 r2
+  have hwP := hP.wf
+  have hvall : pValid e (s.pool.map POp.app ++ skipOps b.prop (fun i => decide (i ∈ s.pool)) b.txs) R := by
+    apply (pValid_append e _ _ R).mpr
+    refine ⟨hP.valid, ?_⟩
+    rw [prun_apps]
+    exact r2
+  obtain ⟨vfin, efin⟩ := absorb e b.prop b.txs s.pool R hndB hndP hwB hwP hvall
+    (absorb_H1 e b.prop s.pool s.pool b.txs R hP hndP (List.Sublist.refl _) hB hwB hndB hfreshU hfreshV
+      (by
+        intro pre i post hsplit a haP haB hord pk _ _ hwi _
+        have hiB : i ∈ b.txs := by rw [hsplit]; simp
+        cases hc : (e.tx i).coinbase with
+        | true =>
+          obtain ⟨ko, hko, _⟩ := hwi
+          rw [(hcb i hiB hc).2] at hko
+          cases hko
+        | false =>
+          have hiP := hsub i hiB hc
+          exact nodup_pair_order s.pool a i hndP (hord hiP) (hprefix a haP haB i hiB hiP))
+      (fun i hiP hiK => absurd hiP hiK))
+    (play_H2 e s.pool b.txs R hP hwB (fun j hj => hfreshU j (List.mem_append_right _ hj)))
+  rw [prun_append, prun_apps, prun_append, prun_blockOps, prun_apps] at efin
+  have hpool : (playForMiner e s lh b).1.pool = s.pool.filter (fun i => decide (i ∉ b.txs)) := by
+    rw [hshape]
+    simp only
+    apply List.filter_congr
+    intro x _
+    by_cases h1 : x ∈ b.txs <;> simp [h1]
+  refine ⟨hpool, ?_, ?_⟩
+  · rw [hpool]
+    have h2 : TRefines s2 (applyPool e (s.pool.filter (fun i => decide (i ∉ b.txs)))
+        (replayTxs e b.prop b.txs R)) := r1.trans efin.trefines
+    rw [hshape]
+    exact h2.of_tables ⟨rfl, rfl, rfl, rfl⟩ ⟨rfl, rfl, rfl, rfl⟩
+  · rw [hpool]
+    obtain ⟨_, v2⟩ := (pValid_append e _ _ R).mp vfin
+    rw [prun_blockOps] at v2
+    have hmemP' : ∀ i, i ∈ s.pool.filter (fun i => decide (i ∉ b.txs)) → i ∈ s.pool ∧ i ∉ b.txs := by
+      intro i hi
+      obtain ⟨h1, h2⟩ := List.mem_filter.mp hi
+      exact ⟨h1, by simpa using h2⟩
+    apply poolOK_of_valid e _ _ v2 (List.Nodup.sublist List.filter_sublist hndP)
       (fun i hi => hP.wf i (hmemP' i hi).1)
     · intro i hi o
       rw [← prun_blockOps]
